@@ -11,7 +11,7 @@ update = "--update" in sys.argv
 items = {}
 for d in sorted(glob.glob(os.path.join(VERIF, "benign", "*", "patch.diff"))):
     items[os.path.basename(os.path.dirname(d))] = d
-for rnd, tagc in (("3", "b"), ("5", "c"), ("6", "d"), ("8", "e")):
+for rnd, tagc in (("3", "b"), ("5", "c"), ("6", "d"), ("8", "e"), ("0", "f")):
     for d in sorted(glob.glob(f"/tmp/out{rnd}_C*/change_*.diff")):
         pid = re.search(r"out\d_(C\d\d)", d).group(1)
         i = re.search(r"change_(\d+)", d).group(1)
